@@ -94,6 +94,119 @@ func c11d(c *Ctx) {
 			}
 		}
 		walk(doc, named, tg.typ)
+		// the binding above is the DEFAULT binding of encoding/json: it is what runs only if no
+		// type on the way decodes itself
+		var custom []string
+		seenT := map[types.Type]bool{}
+		var scan func(t types.Type)
+		scan = func(t types.Type) {
+			if seenT[t] {
+				return
+			}
+			seenT[t] = true
+			if nt, ok := t.(*types.Named); ok && nt.Obj().Pkg() != nil && c.W.InRepoPkg(nt.Obj().Pkg()) {
+				ms := types.NewMethodSet(types.NewPointer(nt))
+				for i := 0; i < ms.Len(); i++ {
+					if nm := ms.At(i).Obj().Name(); nm == "UnmarshalJSON" || nm == "UnmarshalText" {
+						custom = append(custom, nt.Obj().Name()+"."+nm)
+					}
+				}
+			}
+			switch u := t.Underlying().(type) {
+			case *types.Struct:
+				for i := 0; i < u.NumFields(); i++ {
+					scan(u.Field(i).Type())
+				}
+			case *types.Map:
+				scan(u.Key())
+				scan(u.Elem())
+			case *types.Pointer:
+				scan(u.Elem())
+			case *types.Slice:
+				scan(u.Elem())
+			case *types.Array:
+				scan(u.Elem())
+			}
+		}
+		scan(named)
+		sort.Strings(custom)
+		c.Check(len(custom) == 0, "config/"+tg.file+"/default-decoding", tg.file, fmt.Sprintf("no type below %s decodes itself (%d types)", tg.typ, len(seenT)), fmt.Sprintf("%v: a type the shipped %s is decoded into has its own decoder, so what ends up in the fields is whatever that code does, not what the file says", custom, tg.file))
+		// the kind of every bound value fits the field it is bound to (a number into a number, a
+		// string into a string ...): encoding/json reports a mismatch as an error or, with the
+		// `,string` option, reads something else than the file means
+		var misfit []string
+		var fits func(v interface{}, t types.Type, path string)
+		fits = func(v interface{}, t types.Type, path string) {
+			for {
+				p, ok := t.Underlying().(*types.Pointer)
+				if !ok {
+					break
+				}
+				t = p.Elem()
+			}
+			okK := true
+			switch x := v.(type) {
+			case string:
+				b, isB := t.Underlying().(*types.Basic)
+				okK = isB && b.Info()&types.IsString != 0
+			case float64:
+				b, isB := t.Underlying().(*types.Basic)
+				okK = isB && b.Info()&types.IsNumeric != 0
+				if okK && b.Info()&types.IsInteger != 0 && x != float64(int64(x)) {
+					okK = false
+				}
+			case bool:
+				b, isB := t.Underlying().(*types.Basic)
+				okK = isB && b.Info()&types.IsBoolean != 0
+			case []interface{}:
+				sl, isS := t.Underlying().(*types.Slice)
+				okK = isS
+				if isS {
+					for i, e := range x {
+						fits(e, sl.Elem(), fmt.Sprintf("%s[%d]", path, i))
+					}
+				}
+			case map[string]interface{}:
+				switch u := t.Underlying().(type) {
+				case *types.Struct:
+					for i := 0; i < u.NumFields(); i++ {
+						name := u.Field(i).Name()
+						tag := reflect.StructTag(u.Tag(i)).Get("json")
+						if tag != "" {
+							parts := strings.Split(tag, ",")
+							if parts[0] != "" && parts[0] != "-" {
+								name = parts[0]
+							}
+							for _, o := range parts[1:] {
+								if o == "string" {
+									misfit = append(misfit, path+"."+name+" (`,string` option)")
+								}
+							}
+						}
+						for k, sub := range x {
+							if k == name || strings.EqualFold(k, name) {
+								fits(sub, u.Field(i).Type(), path+"."+name)
+							}
+						}
+					}
+				case *types.Map:
+					for k, sub := range x {
+						fits(sub, u.Elem(), path+"["+k+"]")
+					}
+				default:
+					okK = false
+				}
+			}
+			if !okK {
+				misfit = append(misfit, path+" ("+types.TypeString(t, nil)+")")
+			}
+		}
+		fits(doc, named, tg.typ)
+		sort.Strings(misfit)
+		if len(misfit) > 6 {
+			misfit = misfit[:6]
+		}
+		c.Check(len(misfit) == 0, "config/"+tg.file+"/value-kinds-fit", tg.file, "every value of the shipped file has the kind of the field it is bound to", fmt.Sprintf("values of the shipped %s that do not fit the field they are bound to: %v", tg.file, misfit))
 		var ub, unused []string
 		for k := range unbound {
 			ub = append(ub, k)
